@@ -98,6 +98,24 @@ class ArchSpec(object):
         else:
             raise ValueError(mname)
 
+    def soft_int(self):
+        """bytes of a software interrupt / system call instruction (a completing exception that a
+        host handler clears before the run goes on), or None"""
+        import struct as _s
+        fam = self.family
+        end = ">" if self.big else "<"
+        if fam.startswith("x86"):
+            return b"\xcd\x80"
+        if fam == "arm":
+            return _s.pack(end + "I", 0xEF000000)
+        if fam == "aarch64":
+            return _s.pack(end + "I", 0xD4000001)
+        if fam == "mips32":
+            return _s.pack(end + "I", 0x0000000C)
+        if fam == "ppc32":
+            return _s.pack(">I", 0x44000002)
+        return None
+
     # ---- loop templates: (dec counter, branch back) as bytes, given pc of the branch and the target
     def loop_tail(self, pc, target):
         """bytes of 'decrement counter; branch to target if counter != 0' placed at @pc,
@@ -312,7 +330,7 @@ def interesting_values(rng, bits, L):
     return [v & m for v in pool]
 
 
-def make_prog(spec, rng, pool, n_instr, with_loop=False, fault_bias=0.3, mode=None):
+def make_prog(spec, rng, pool, n_instr, with_loop=False, fault_bias=0.3, mode=None, soft_int=False):
     """mode: None (registers mostly inside the rw page, fault_bias of them on interesting values),
     "straddle" (every pointer a few bytes before a page boundary: rw->ro, ro->hole, hole->rw2),
     "split" (every register independently on a valid rw address, a read-only address or a hole:
@@ -322,6 +340,12 @@ def make_prog(spec, rng, pool, n_instr, with_loop=False, fault_bias=0.3, mode=No
     CODE, DATA_RW, DATA_RO, DATA_RW2 = L.CODE, L.DATA_RW, L.DATA_RO, L.DATA_RW2
     bits = 16 if spec.pc_size == 16 else (64 if spec.mname in ("x86_64", "aarch64l", "aarch64b") else 32)
     body = [rng.choice(pool) for _ in range(n_instr)]
+    si = spec.soft_int() if soft_int else None
+    if si is not None:
+        # one or two software interrupts, preferably inside the loop body
+        for _ in range(rng.choice([1, 1, 2])):
+            body.insert(rng.randrange(0, len(body) + 1), (si, "<software interrupt>", "SOFTINT"))
+        n_instr = len(body)
     code = b""
     off = CODE
     loop_at = rng.randrange(0, max(1, n_instr - 1)) if with_loop else None
@@ -445,9 +469,12 @@ def snapshot(jitter, spec, out):
 
 
 def run(spec, backend, prog, options=None, max_steps=400, breakpoints=(), trace=False, on_fault=None,
-        jitter=None, start=None):
-    """run @prog to its end marker.  -> Outcome"""
+        jitter=None, start=None, int_handler=False):
+    """run @prog to its end marker.  -> Outcome
+    @int_handler: software interrupts / system calls are handled by a host callback that logs
+    (pc, counter register), changes a register, clears the exception and lets the run go on"""
     out = Outcome()
+    out.int_log = []
     if jitter is None:
         jitter = new_jitter(spec, backend, prog, options)
     out.jitter = jitter
@@ -456,8 +483,17 @@ def run(spec, backend, prog, options=None, max_steps=400, breakpoints=(), trace=
         out.stop = "end"
         return False
 
+    SOFT = (1 << 2) | (1 << 4)       # EXCEPT_INT_XX | EXCEPT_SYSCALL
+
     def on_exc(j):
         flag = j.get_exception()
+        if int_handler and flag and (flag & ~SOFT) == 0 and len(out.int_log) < 200:
+            cnt = getattr(j.cpu, spec.counter) if spec.counter else 0
+            out.int_log.append((j.pc, cnt))
+            scratch = spec.gprs[-1]
+            setattr(j.cpu, scratch, (getattr(j.cpu, scratch) * 3 + j.pc + len(out.int_log)) & 0xFFFF)
+            j.cpu.set_exception(0)
+            return True
         out.exc_seen.append(flag)
         out.stop = "exception"
         if on_fault is not None:
@@ -516,6 +552,9 @@ def diff_outcomes(a, b, spec, ignore_regs=(), skip=()):
         if da != db:
             i = next(i for i in range(min(len(da), len(db))) if da[i] != db[i]) if len(da) == len(db) else -1
             return "memory", "0x%x+%d: %s vs %s" % (addr, i, da[i:i + 8].hex(), db[i:i + 8].hex())
+    if getattr(a, "int_log", []) != getattr(b, "int_log", []) and "int_log" not in skip:
+        return "interrupt handler calls", "%s vs %s" % ([(hex(p), c) for p, c in a.int_log[:6]],
+                                                        [(hex(p), c) for p, c in b.int_log[:6]])
     if a.bp_hits != b.bp_hits:
         return "breakpoint hits", "%s vs %s" % (a.bp_hits[:10], b.bp_hits[:10])
     return None
